@@ -58,7 +58,7 @@ MANIFEST = dict(
               "root analysis + bottom-up mutation summaries over the "
               "resolved call graph",
 )
-FLOORS = {"C16.1": 60, "C16.2": 3, "C16.3": 8}
+FLOORS = {"C16.1": 60, "C16.2": 3, "C16.3": 8, "C16.4": 1}
 
 SUBJECT_MODULES = (
     "evo.core.sync", "evo.core.filters", "evo.core.geometry",
@@ -148,11 +148,49 @@ def _is_lazy_fill(q: str, ef: Effect) -> bool:
     return tm.fold(ef.event.live, materialised) is False
 
 
+def _memo_writes(ctx, results):
+    """C16.4: the result of a memoised function (functools.lru_cache / cache)
+    is one object shared by all callers and all later calls: an in-place
+    write into it (item store, augmented assignment, mutating method)
+    changes what every other computation gets — results then depend on the
+    call history.  Reading it, or writing into a copy, is fine."""
+    n = 0
+    for q, r in sorted(results.items()):
+        for e in r.events:
+            tgt = None
+            if e.kind == "setitem":
+                tgt = e.data.get("base")
+            elif e.kind == "augassign":
+                tgt = e.data.get("target")
+            elif e.kind == "call" and e.data.get("mutates_recv"):
+                tgt = e.data.get("recv")
+            if tgt is None:
+                continue
+            cur = tgt
+            for _ in range(10):
+                if cur.op in ("sub", "upd", "mut", "attr"):
+                    cur = cur.args[0]
+                else:
+                    break
+            if cur.op == "named" and str(cur.args[0]).startswith("memo:"):
+                n += 1
+                ctx.ob("C16.4", e, False,
+                       f"{q}: writes in place into the result of the "
+                       f"memoised function {cur.args[0][5:]} — the cached "
+                       f"object is shared by all callers, so every later "
+                       f"call (of this and of other computations) sees the "
+                       f"modified value", key=f"C16.4:memo-write:{q}")
+    ctx.ob("C16.4", "evo", n == 0,
+           "no in-place write into the result of a memoised function",
+           key="C16.4:memo-writes", nontrivial=False)
+
+
 def check(ctx):
     prog = ctx.prog
     results = sweep(prog, "plain")
     S = Summaries(prog, results)
     ctx.analysed["functions_swept"] = len(results)
+    ctx.section(_memo_writes, ctx, results)
 
     # ---------------------------------------------------------------- C16.1
     for q in sorted(results):
